@@ -50,13 +50,38 @@ func genC03(seed uint64, tier string) *Plan {
 		}
 	}
 	p.Ops = out
+	if r.Chance(0.25) && p.Cfg.Primary == "multihash" {
+		// background variant: the store's own flusher and collectors run on short
+		// simulated intervals during the forward run, so crash points land in the
+		// middle of background flushes and GC cycles (explicit GC ops are dropped:
+		// two cycles of one collector at once is not a supported use)
+		p.X["bg"] = 1
+		p.Cfg.Flusher = true
+		p.Cfg.SyncMs = 1 + r.Intn(20)
+		p.Cfg.GCMs = int64(3 + r.Intn(40))
+		p.Cfg.GCLimitMs = int64([]int{0, 1, 5}[r.Intn(3)])
+		var keep []Op
+		for _, o := range dropGCOps(p.Ops) {
+			keep = append(keep, o)
+			if r.Chance(0.5) {
+				keep = append(keep, Op{K: "sleep", A: 1 + r.Intn(30000)})
+			}
+		}
+		p.Ops = keep
+		p.Sim.Latency = LatencyCfg{Kind: "const", Base: int64(1000 * (1 + r.Intn(300)))}
+	}
 	p.X["followup"] = 6 + r.Intn(14)
 	p.X["sample"] = 24
 	if tier == "thorough" {
 		p.X["sample"] = 0 // all crash points
 	}
 	p.X["crash_at"] = -1
-	p.Sim = SimCfg{Strategy: simrt.Strategy{Kind: "sticky", Stick: 0.9}}
+	lat := p.Sim.Latency
+	p.Sim = SimCfg{Strategy: simrt.Strategy{Kind: "sticky", Stick: 0.9}, Latency: lat}
+	if p.X["bg"] == 1 {
+		p.Sim.Strategy = simrt.Strategy{Kind: "random"}
+		p.Sim.MaxSteps = 80000
+	}
 	return p
 }
 
@@ -138,6 +163,14 @@ func runCrash(p *Plan, tape *simrt.Tape, opt RunOpt) *RunOut {
 	d := NewDriver(p)
 	d.Adm = newAdm()
 	d.staticProbes()
+	if p.x("bg", 0) == 1 && Steering("C03-concurrent-commit", p) {
+		// steering rule of known finding KF-4 (the store's commit is not an atomic
+		// cut with respect to a concurrent writer): the background variant keeps
+		// its collectors but the periodic flusher is not started, so every flush
+		// is issued by the single writer itself
+		d.Cfg.Flusher = false
+		out.Probes["steered-away"]++
+	}
 	var cands []*crashCand
 	var hit *crashCand
 	fs.Hook = func(f *simos.FS, rec *simos.OpRec, data []byte) simos.Action {
@@ -356,6 +389,12 @@ func (rc *recoverer) recover(img *simos.Image, adm *Adm, nestedAt int, where str
 	fs := simos.Boot(img)
 	d := NewDriver(p)
 	d.FsckOn = true
+	if p.x("bg", 0) == 1 {
+		// the recovered store is driven sequentially (explicit GC cycles)
+		d.Cfg.Flusher = false
+		d.Cfg.GCMs = 1000 * 3600 * 1000
+		d.Cfg.GCLimitMs = 0
+	}
 	w, res := world(p, simrt.ReplayTape(nil), fs, rc.opt, nil, func() {
 		if err := d.Open(); err != nil {
 			d.fail("crash/open-error", "%s: open after crash failed: %v", where, err)
